@@ -13,7 +13,7 @@ from mdsim.props import _gen
 PROP = "C01"
 LEVEL = "exploration"
 TECHNIQUE = "deterministic simulation: seeded search over owned RNG draw schedules (S-RNG seam) + graph reference model"
-RUNS = {"quick": 20000, "thorough": 1200000}
+RUNS = {"quick": 30000, "thorough": 1200000}
 BATCH = {"quick": 100, "thorough": 250}
 COMPONENTS = {
     "real": ["maze_dataset.generation.generators (all five generators)", "LatticeMaze constructor"],
